@@ -295,6 +295,7 @@ def r1(ctx, p, b):
     dom = b.dominators()
     firsts = []
     roles = []
+    zipped_first = []
     for pos, l in enumerate(its):
         ds = [d for d in b.defs().get(l, []) if not b.is_cleanup(d[0])]
         if len(ds) != 1:
@@ -322,16 +323,56 @@ def r1(ctx, p, b):
                         other.append(it2)
             elif ui != "term" and item["rv"]["k"] == "use":
                 pass  # the move into zip's argument temp
+            elif ui == "term" and item is zt:
+                pass  # handed to zip directly
             else:
                 other.append(item)
         if len(nexts) == 1 and not other and nexts[0][0] in dom.get(zb, ()):
             ctx.ok("C10-R1", "%s iterator: created without skipping, advanced exactly once, then zipped" % role, b.loc())
             firsts.append((role, nexts[0][1]["dest"]["local"]))
+        elif not nexts and not other:
+            # zipped first, advanced afterwards: judged on the zip iterator below
+            zipped_first.append(role)
         else:
             ctx.fail("C10-R1", b.path, "%s iterator typestate" % role, "the %s iterator is advanced %d times before the zip (other uses: %d): the first or a later voice/weight is dropped or reused" % (role, len(nexts), len(other)), b.loc())
     if roles != ["voices", "weights"] and roles != ["weights", "voices"]:
         ctx.fail("C10-R1", b.path, "zip roles", "zip does not pair the voice iterator with the weight iterator: %s" % roles, b.loc())
         return
+    zmode = False
+    if zipped_first:
+        # `let mut z = voices.zip(weights); let (p0, w0) = z.next().unwrap(); for (p, w) in z { .. }`:
+        # the pair iterator is advanced exactly once before the loop takes the rest
+        zl = zt["dest"]["local"]
+        n_ = 0
+        while n_ < 4:
+            n_ += 1
+            mv = [item["place"]["local"] for ubb, ui, item in b.uses(zl) if ui != "term" and item["rv"]["k"] == "use" and item["rv"]["op"].get("k") == "move" and not item["rv"]["op"]["place"]["proj"] and b.local_name(item["place"]["local"])]
+            if len(mv) == 1 and not b.local_name(zl):
+                zl = mv[0]
+            else:
+                break
+        znext, zother = [], []
+        for ubb, ui, item in b.uses(zl):
+            if ui != "term" and item["rv"]["k"] == "ref" and item["rv"]["mut"]:
+                rl_ = item["place"]["local"]
+                for u2bb, u2i, it2 in b.uses(rl_):
+                    if u2i == "term" and it2["k"] == "call" and cm.callee_name(it2["callee"]).endswith("Iterator>::next"):
+                        znext.append((u2bb, it2))
+                    else:
+                        zother.append(it2)
+            elif ui != "term" and item["rv"]["k"] == "use":
+                pass
+            elif ui == "term" and item["k"] == "call" and cm.callee_name(item["callee"]).endswith("into_iter"):
+                pass
+            else:
+                zother.append(item)
+        lps = b.natural_loops()
+        if len(zipped_first) == 2 and len(znext) == 1 and not zother and len(lps) == 1 and znext[0][0] not in lps[0][1] and znext[0][0] in dom.get(lps[0][0], ()):
+            zmode = True
+            ctx.ok("C10-R1", "voices and weights are zipped without skipping; the pair iterator is advanced exactly once (first term) before the loop takes the rest", b.loc())
+        else:
+            ctx.fail("C10-R1", b.path, "pair iterator typestate", "the zipped (voice, weight) iterator is advanced %d times outside the loop (other uses: %d): the first or a later voice/weight is dropped or reused" % (len(znext), len(zother)), b.loc())
+            return
     # first term
     muls = cm.local_calls(b, p, exact=MUL)
     if len(muls) != 1:
@@ -340,7 +381,10 @@ def r1(ctx, p, b):
         mbb, mt = muls[0]
         a0 = show(eb.at(mbb).op(mt["args"][0]))
         a1 = show(eb.op(mt["args"][1]))
-        if "unwrap(" in a0 and "Map<I, F>" in a0 and "unwrap(" in a1 and "next(" in a1 and "weights" in a1:
+        pidx_, widx_ = roles.index("voices"), roles.index("weights")
+        if zmode and "unwrap(" in a0 and "Zip<A, B>" in a0 and a0.endswith(".%d" % pidx_) and "unwrap(" in a1 and "Zip<A, B>" in a1 and a1.endswith(".%d" % widx_):
+            ctx.ok("C10-R1", "first term = mul(first pair's parameter, first pair's weight)", cm.loc_of(mt["span"]))
+        elif "unwrap(" in a0 and "Map<I, F>" in a0 and "unwrap(" in a1 and "next(" in a1 and "weights" in a1:
             ctx.ok("C10-R1", "first term = mul(first voice's parameter, first weight)", cm.loc_of(mt["span"]))
         else:
             ctx.fail("C10-R1", b.path, "first term", "first term is mul(%s, %s)" % (a0[:80], a1[:80]), cm.loc_of(mt["span"]))
